@@ -89,6 +89,8 @@ struct Sink {
     }
 };
 static Sink S;
+static std::atomic<bool> g_incomplete{false};
+static bool out_of_time() { if (vx::deadline_reached()) { g_incomplete = true; return true; } return false; }
 static std::string T(std::initializer_list<std::string> f)
 {
     std::string o;
@@ -154,6 +156,7 @@ static void stream_section(const std::string& kind, const std::string& algo, con
     std::atomic<uint64_t> n_chunk{0};
     vx::par_for(pats.size() * nl, 1, [&](uint64_t lo, uint64_t hi, unsigned) {
         for (uint64_t idx = lo; idx < hi; idx++) {
+            if (out_of_time()) continue; // a deadline is not a violation: complete (pattern,length) units only
             const int p = pats[idx / nl];
             const size_t len = L2 - idx % nl; // long ones first (better balance)
             const uint8_t* d = pat(p);
@@ -804,6 +807,7 @@ int main(int argc, char** argv)
         printf("M\tAUTODETECT-OK\t%d\t%s\n", mask, name.c_str());
         fflush(stdout);
         sha256_api_sections("@m" + std::to_string(mask), L2, L3, big ? 64 : 40);
+        if (g_incomplete) printf("M\tINCOMPLETE\n");
         S.finish();
         return 0;
     }
@@ -827,7 +831,7 @@ int main(int argc, char** argv)
     poly_sections(big ? 300 : 80, big ? 80 : 50);
     aes_sections(big);
     aead_sections(big ? 300 : 130, big);
-    if (vx::deadline_reached()) printf("M\tINCOMPLETE\n");
+    if (g_incomplete) printf("M\tINCOMPLETE\n");
     S.finish();
     return 0;
 }
